@@ -553,8 +553,10 @@ class SplineBasis:
         )
         self._x_len = len(x)
         self.knots = _spline_knots(self.x, num_knots, spline_degree, True)
-        self.spline_degree = spline_degree
-        self.num_knots = num_knots
+        # python scalars so that later changes to 0-d arrays given by the caller cannot alter the
+        # settings that same_basis compares against
+        self.spline_degree = np.asarray(spline_degree).item()
+        self.num_knots = np.asarray(num_knots).item()
         self.basis = _spline_basis(self.x, self.knots, spline_degree)
         self._num_bases = self.basis.shape[1]
 
